@@ -20,19 +20,34 @@ LEVEL_TEXT = ("Every acyclic graph with <= 3 (quick) / <= 4 (thorough) nodes ove
               "preservation and the dependency closure are checked on every execution. The same through the other public engines "
               "(run_incremental / run_all with a dict, a list, a set of targets and the caller's broker), two-step histories in one process, "
               "pre-seeded values that are None / 0, and every typed graph (datasources, parsers, combiners, registry points with prio -1/0/1) "
-              "with <= 3 (thorough 4) nodes. Complete within the bounds; schedules are owned, not sampled.")
+              "with <= 3 (thorough 4) nodes. Dependencies declared on the component TYPE (class-level requires - plain and at-least-one - "
+              "and optional of a ComponentType subclass, shared by all nodes with the same class-level declaration) are one more family of "
+              "edge kinds: every graph with <= 3 nodes over the 8 kinds that has >= 1 type-level edge (quick: no deviation, n = 2 with <= 2; "
+              "thorough <= 2 deviations) and every 4-node graph over {none, required, type-level required} (thorough: plus type-level "
+              "at-least-one / optional), through node / pair / dict / type / the ad-hoc type itself / incremental / run_all targets. "
+              "Complete within the bounds; schedules are owned, not sampled.")
 LEVEL_NOTE = ("Tie-breaks are owned through forced __hash__ values of the component objects (CPython iterates small sets by slot = hash); "
               "verified per run by the self-check that all N! permutations yield the expected number of distinct orders on an edgeless graph. "
               "Bounded by N <= 4.")
 RULE = ("DAG shapes x deviations x targets x hash permutations; an execution is non-trivial when its graph has >= 1 edge and >= 2 nodes "
         "take part; states = distinct (case, attempt-order prefix) nodes of the execution trees, transitions = component turns executed, "
-        "traces = complete dr.run executions")
+        "traces = complete dr.run executions; part 'typelevel': shapes over EDGE + {treq, tg, topt} (dependency declared as class "
+        "attribute requires / optional of the component's type) with >= 1 type-level edge, x deviations x targets x hash permutations")
 ASSUMPTIONS = ["CPython set iteration order for <= 4 elements with distinct hashes < 8 is slot order (self-checked every run)"]
-BOUNDS = {"quick": {"max_nodes": 3, "max_dev": 2, "plus": "all 4-node DAGs with required edges only, <= 1 deviation"}, "thorough": {"max_nodes": 4, "max_dev_n3": 2, "max_dev_n4": 1}}
+BOUNDS = {"quick": {"max_nodes": 3, "max_dev": 2, "plus": "all 4-node DAGs with required edges only, <= 1 deviation",
+                    "typelevel": "n=2: 8 edge kinds, <= 2 deviations; n=3: 8 edge kinds, >= 1 type-level edge, no deviation; "
+                                 "n=4: kinds {none, req, treq}, >= 1 type-level edge, no deviation"},
+          "thorough": {"max_nodes": 4, "max_dev_n3": 2, "max_dev_n4": 1,
+                       "typelevel": "n<=3: 8 edge kinds, >= 1 type-level edge, <= 2 deviations; "
+                                    "n=4: kinds {none, req, treq, tg, topt}, >= 1 type-level edge, no deviation"}}
 CAP_S = {"quick": 300, "thorough": 5400}
 
 EDGE = ["none", "req", "g1", "g2", "opt"]
 ALTS = ["none", "skip", "error", "disabled", "seed", "seednone", "seedzero"]
+# dependencies declared on the component TYPE (class attributes of a ComponentType subclass): required, member of ONE
+# class-level at-least-one group, optional. "All components decorated with this type implicitly require / depend on" them,
+# so they are declared dependencies of the component like the ones in the decorator call.
+TYPE_EDGE = ["treq", "tg", "topt"]
 
 
 def shapes(n, edge_kinds=None):
@@ -55,6 +70,15 @@ def shape_to_nodes(n, shape, devs, t="plain"):
         opt = [j for j in range(i) if shape.get((j, i)) == "opt"]
         if opt:
             nd["opt"] = opt
+        treq = [j for j in range(i) if shape.get((j, i)) == "treq"]
+        tg = [j for j in range(i) if shape.get((j, i)) == "tg"]
+        if tg:
+            treq.append(tg)
+        if treq:
+            nd["treq"] = treq
+        topt = [j for j in range(i) if shape.get((j, i)) == "topt"]
+        if topt:
+            nd["topt"] = topt
         d = devs[i]
         if d == "disabled":
             nd["en"] = False
@@ -114,6 +138,24 @@ def targets_for(n, tier):
     return ts
 
 
+def targets_typelevel(n, nodes):
+    """Targets of the 'typelevel' part: every evaluation entry point, plus the ad-hoc type itself (dr.run(<type>) evaluates
+    all components decorated with it)."""
+    typed = [i for i, nd in enumerate(nodes) if nd.get("treq") or nd.get("topt")]
+    if n == 4:
+        return ([["node", 3], ["dict"], ["pair", 2, 3], ["incr-dict"], ["incr-pair", 2, 3], ["incr-pair", 1, 3]]
+                + [["typeof", typed[-1]]])
+    ts = [["node", i] for i in range(n)]
+    ts += [["pair", i, j] for i in range(n) for j in range(i + 1, n)]
+    ts += [["dict"], ["type"], ["incr-dict"], ["all-type"]]
+    ts += [["incr-pair", i, j] for i in range(n) for j in range(i + 1, n)]
+    ts += [["all-pair", 0, n - 1], ["incr-set", n - 2, n - 1]]
+    if n == 3:
+        ts += [["subdict", list(m)] for k in (1, 2) for m in itertools.combinations(range(n), k)]
+    ts += [["typeof", i] for i in typed]
+    return ts
+
+
 def units(tier, seed):
     us = [{"part": "selfcheck"}]
     us += [{"part": "shapes", "n": 1, "chunk": 0, "of": 1}, {"part": "shapes", "n": 2, "chunk": 0, "of": 1}]
@@ -123,6 +165,17 @@ def units(tier, seed):
     us += [{"part": "prio", "n": 2, "chunk": 0, "of": 1}] + [{"part": "prio", "n": 3, "chunk": c, "of": 4} for c in range(4)]
     if tier == "thorough":
         us += [{"part": "prio", "n": 4, "chunk": c, "of": 100} for c in range(100)]
+    # dependencies declared on the component TYPE (class-level requires / at-least-one / optional)
+    full = EDGE + TYPE_EDGE
+    if tier == "quick":
+        us += [{"part": "typelevel", "n": 2, "chunk": 0, "of": 1, "edges": full, "max_dev": 2}]
+        us += [{"part": "typelevel", "n": 3, "chunk": c, "of": 8, "edges": full, "max_dev": 0} for c in range(8)]
+        us += [{"part": "typelevel", "n": 4, "chunk": c, "of": 8, "edges": ["none", "req", "treq"], "max_dev": 0} for c in range(8)]
+    else:
+        us += [{"part": "typelevel", "n": 2, "chunk": 0, "of": 1, "edges": full, "max_dev": 2}]
+        us += [{"part": "typelevel", "n": 3, "chunk": c, "of": 60, "edges": full, "max_dev": 2} for c in range(60)]
+        us += [{"part": "typelevel", "n": 4, "chunk": c, "of": 200, "edges": ["none", "req", "treq", "tg", "topt"], "max_dev": 0}
+               for c in range(200)]
     if tier == "quick":
         # depth-3 chains need 4 nodes: all required-edge-only 4-node DAGs, <= 1 deviation
         us += [{"part": "shapes", "n": 4, "chunk": c, "of": 8, "edges": ["none", "req"]} for c in range(8)]
@@ -171,6 +224,9 @@ def check_case(case, res=None):
             elif tgt[0] in ("run-adddep-run", "run-adddep-rungroup"):
                 comps = g.explicit_graph()
                 tix = list(range(n))
+            elif tgt[0] == "typeof":
+                comps = g.types[tgt[1]]           # the (ad-hoc) component type of that node: all components decorated with it
+                tix = [k for k in range(n) if g.types[k] is comps]
             else:
                 comps = G.TYPES[desc["nodes"][0]["t"]]
                 tix = list(range(n))
@@ -365,6 +421,32 @@ def run_unit(unit, tier):
                     for v in vio:
                         res.violation(v[0], {"nodes": nodes, "target": tgt, "perm": list(v[3]) if v[3] is not None else None}, v[1], v[2])
         res.maxi("typed_graph_nodes", n)
+        return res
+    if unit["part"] == "typelevel":
+        k = -1
+        for shape in shapes(n, unit["edges"]):
+            if not any(kind in TYPE_EDGE for kind in shape.values()):
+                continue                              # covered by part "shapes"
+            k += 1
+            if k % unit["of"] != unit["chunk"]:
+                continue
+            for devs in enumx.deviations(["value"] * n, [ALTS] * n, unit["max_dev"]):
+                nodes = shape_to_nodes(n, shape, devs, "plain")
+                for tgt in targets_typelevel(n, nodes):
+                    if tgt[0] not in ("node", "pair", "dict", "type", "typeof") and sum(1 for d in devs if d != "value") > 1:
+                        continue
+                    case = {"nodes": nodes, "target": tgt, "perm": None}
+                    try:
+                        vio, norders = check_case(case, res)
+                    except Exception:
+                        import traceback
+                        vio, norders = [("harness:raises", "no exception", traceback.format_exc()[-800:], None)], 0
+                    res.case(nontrivial=n >= 2, outcome="typelevel-orders:%d" % norders,
+                             sample=case if res.evals % 3000 == 7 else None)
+                    res.stat("cases_with_a_dependency_declared_on_the_component_type", 1)
+                    for v in vio:
+                        res.violation(v[0], {"nodes": nodes, "target": tgt, "perm": list(v[3]) if v[3] is not None else None}, v[1], v[2])
+        res.maxi("typelevel_graph_nodes", n)
         return res
     t = unit.get("t", "plain")
     if n == 4:
